@@ -128,6 +128,12 @@ impl BrokerSubscriptions {
             forall|s: ServiceCookie| final(self).wants_all(s) == (old(self).wants_all(s) && s != service),
     //@end
 
+    // the client produces an event exactly when the broker told it to (that event, or all events of the service)
+    // (`.map(|entry| entry.emit(event))` inlined by normalisation N11)
+    //@fn aldrin/src/client/broker_subscriptions.rs BrokerSubscriptions::emit option-map
+        ensures r == self.wants(service, event),
+    //@end
+
     //@fn aldrin/src/client/broker_subscriptions.rs BrokerSubscriptions::remove_service
         requires old(self).inv(),
         ensures
